@@ -1,6 +1,7 @@
 """C04 — discrete conservation of the mass and energy balance equations on fractured
 md-grids (pp.SinglePhaseFlow, pp.MassAndEnergyBalance)."""
 import os
+import shutil
 import time
 from fractions import Fraction as F
 
@@ -125,7 +126,7 @@ def build_model(case):
         params["meshing_arguments"] = {"cell_size": case["cell_size"]}
     m = model_class(case["geometry"], case["physics"], case.get("laws", "default"))(params)
     # gmsh writes its files into the working directory
-    tmp = os.path.join(core.CACHE, "tmp", "c04")
+    tmp = os.path.join(core.CACHE, "tmp", "c04.%d" % os.getpid())
     os.makedirs(tmp, exist_ok=True)
     cwd = os.getcwd()
     os.chdir(tmp)
@@ -133,6 +134,7 @@ def build_model(case):
         m.prepare_simulation()
     finally:
         os.chdir(cwd)
+        shutil.rmtree(tmp, ignore_errors=True)
     return m
 
 
